@@ -81,15 +81,20 @@ def prepare(case, r: R):
         return None
     cl = clusters(allf)
     for g in cl:
-        if g[-1] - g[0] > 1e-12 * max(g[-1], 1e-300):
-            # members of one cluster must be equal up to rounding, and clusters well separated
+        if g[-1] - g[0] > 0.8 * W_RES:
+            # members of one cluster must all lie within the resolution of each other (no chains), clusters well apart
             r.reject('ambiguous frequency spacing')
             return None
     for a, b in zip(cl, cl[1:]):
-        if b[0] - a[-1] <= 2 * W_RES:
+        if b[0] - a[-1] <= 1.2 * W_RES:
             r.reject('ambiguous frequency spacing')
             return None
     freqs = [g[0] for g in cl]
+    if case.get('_listed'):
+        # analyse at the frequency the library lists for each cluster, provided it is a member's frequency range
+        listed = sorted(case['_listed'])
+        if len(listed) == len(cl) and all(g[0] - 1e-9 * max(g[0], 1e-300) <= f <= g[-1] + 1e-9 * max(g[-1], 1e-300) for f, g in zip(listed, cl)):
+            freqs = [float(f) for f in listed]
     sols = []
     for f in freqs:
         try:
@@ -112,12 +117,17 @@ def check_multifrequency(case, r: R):
     from CircuitCalculator.Circuit.circuit import frequency_components
     from CircuitCalculator.Circuit.solution import TimeDomainSolution, FrequencyDomainSolution
     spec, w_max = case['circuit'], case['w_max']
-    p = prepare(case, r)
+    listed = None
+    with r.lib('frequency_components'):
+        listed = [float(x) for x in frequency_components(cc.lib_circuit(spec), w_max)]
+    p = prepare(dict(case, _listed=listed), r)
     if p is None:
         return
     freqs, cl, sols = p
     comps = [c for c in spec['components'] if c['kind'] != 'ground']
     kinds = [c['kind'] for c in comps]
+    if any(g[-1] - g[0] > 1e-9 * max(g[-1], 1e-300) for g in cl):
+        r.cls('coinciding-within-resolution')
     r.nt(len(freqs) >= 2 and any(k in ('capacitor', 'inductance') for k in kinds))
     if any(len(g) > 1 for g in cl):
         r.cls('coinciding-frequencies')
@@ -140,9 +150,9 @@ def check_multifrequency(case, r: R):
     # (a) analysed frequencies: each physical frequency exactly once
     with r.lib('frequency_components'):
         fl = list(frequency_components(circuit, w_max))
-        ok = len(fl) == len(freqs) and all(abs(a - b) <= 1e-9 * max(abs(b), 1e-300) for a, b in zip(sorted(fl), freqs))
+        ok = len(fl) == len(cl) and all(g[0] - 1e-9 * max(g[0], 1e-300) <= a <= g[-1] + 1e-9 * max(g[-1], 1e-300) for a, g in zip(sorted(fl), cl))
         if not ok:
-            r.fail('frequency-list', {'library': fl, 'expected': freqs})
+            r.fail('frequency-list', {'library': fl, 'expected-one-per-cluster': cl})
         if fl != sorted(fl):
             r.fail('frequency-list-unsorted', str(fl))
     # exact phasors per frequency
@@ -294,6 +304,9 @@ def multi_case(draw):
     others = []
     for k in ks:
         others += [w0 * k, float(f'{w0 * k:.12g}')]
+    if draw(st.sampled_from([False, True])):
+        # coincidence only to within the frequency resolution (1e-3 rad/s), on either side of a rounding boundary
+        others = [others[0] + draw(st.sampled_from([4e-4, 6e-4, -3e-4, 7.5e-4, -5.5e-4, 2e-4]))] + others
     spec = draw(cc.circuit(2, 5, 8, source_kinds_v=('dc_voltage_source', 'ac_voltage_source', 'periodic_voltage_source', 'periodic_voltage_source'),
                            source_kinds_i=('dc_current_source', 'ac_current_source', 'periodic_current_source'), w_pool=[w0], lossy_prob=0,
                            min_sources=2, forced_lossy=False,
